@@ -3,7 +3,7 @@
 (* One trace = one generator (model + exact small rational parameters of ONE voter bloc) together     *)
 (* with the EXACT law of what the real code returned for that bloc, obtained by enumerating every     *)
 (* outcome of every random draw of the code (harness/rng.py):                                         *)
-(*     law    = << <<outcome, n>>, ... >>, den    P(outcome) = n / den;  outcome = the bloc's profile as a bag *)
+(*     law    = << <<outcome, n, d>>, ... >>   P(outcome) = n / d;  outcome = the bloc's profile as a bag       *)
 (*              << <<ballot, count>>, ... >>,  ballot = the sequence of its supported candidates       *)
 (*              (name-Cumulative: << <<candidate, points>>, ... >>)                                   *)
 (*     kernel = << <<state, << <<next state, <<n, d>>>>, ... >> >>, ... >>   (MCMC samplers)           *)
@@ -32,24 +32,32 @@ OLab == T.labels[2]
 Rep(x, n) == [i \in 1..n |-> x]
 RECURSIVE FlatOf(_)
 FlatOf(o) == IF o = <<>> THEN <<>> ELSE Rep(Head(o)[1], Head(o)[2]) \o FlatOf(Tail(o))
-Law == [i \in DOMAIN T.law |-> [flat |-> FlatOf(T.law[i][1]), p |-> Norm(T.law[i][2], T.den)]]      \* numerators over the common denominator T.den
-LawSum == FoldSet(LAMBDA i, acc : T.law[i][2] + acc, 0, DOMAIN T.law)
+Law == [i \in DOMAIN T.law |-> [flat |-> FlatOf(T.law[i][1]), p |-> Norm(T.law[i][2], T.law[i][3])]]
+(* the logged law sums to one: decided here over the common denominator T.den when that fits TLC's integers, otherwise *)
+(* (T.den = 0) the harness' exact sum is taken (it is a fact about the harness' enumeration, not about the code)      *)
+LawComplete == IF T.den > 0 THEN FoldSet(LAMBDA i, acc : T.law[i][2] * (T.den \div T.law[i][3]) + acc, 0, DOMAIN T.law) = T.den ELSE T.complete
 BagKey(s) == [x \in SeqSet(s) |-> CountIn(s, x)]                   \* a sequence as a bag
 Cands == AllCands(Iv)
 
 (* ---- generic comparison: every logged outcome has exactly the probability SeqP gives to its bag ---- *)
+(* (tables are forced with TLCEval once per trace: TLC re-evaluates operator applications every time)  *)
+Ballots == UNION {SeqSet(Law[i].flat) : i \in DOMAIN Law}
+Tab(P(_)) == TLCEval([b \in Ballots |-> P(b)])                      \* per-ballot probabilities of the ballots that occur
 Agrees(SeqP(_)) == \A i \in DOMAIN Law : BagP(Law[i].flat, SeqP) = Law[i].p
+AgreesIidT(pt) == Agrees(LAMBDA s : IndepP(s, LAMBDA j, x : pt[x]))
 (* the same after mapping every ballot through F (marginal law of the bag of images) *)
 MarginalAgrees(F(_), SeqP(_)) ==
-  LET img(i) == [j \in DOMAIN Law[i].flat |-> F(Law[i].flat[j])]
-      keys == {BagKey(img(i)) : i \in DOMAIN Law}
-  IN \A k \in keys : LET I == {i \in DOMAIN Law : BagKey(img(i)) = k}  i0 == CHOOSE i \in I : TRUE
-                     IN RSumSet(I, LAMBDA i : Law[i].p) = BagP(img(i0), SeqP)
-AgreesIid(P(_)) == Agrees(LAMBDA s : IndepP(s, LAMBDA j, x : P(x)))
-MarginalAgreesIid(F(_), P(_)) == MarginalAgrees(F, LAMBDA s : IndepP(s, LAMBDA j, x : P(x)))
+  LET img == TLCEval([i \in DOMAIN Law |-> [j \in DOMAIN Law[i].flat |-> F(Law[i].flat[j])]])
+      key == TLCEval([i \in DOMAIN Law |-> BagKey(img[i])])
+  IN \A k \in {key[i] : i \in DOMAIN Law} :
+        LET I == {i \in DOMAIN Law : key[i] = k}  i0 == CHOOSE i \in I : TRUE
+        IN RSumSet(I, LAMBDA i : Law[i].p) = BagP(img[i0], SeqP)
+TypesIn == {TypeOf(b, Iv) : b \in Ballots}
+TTab(P(_)) == TLCEval([t \in TypesIn |-> P(t)])
+MarginalAgreesIidT(F(_), tt) == MarginalAgrees(F, LAMBDA s : IndepP(s, LAMBDA j, x : tt[x]))
 
 RankingsOK == \A i \in DOMAIN Law : \A j \in DOMAIN Law[i].flat :
-                 LET b == Law[i].flat[j] IN IsInjective(b) /\ SeqSet(b) \subseteq Cands
+                 SeqSet(Law[i].flat[j]) \subseteq Cands       \* (a repeated candidate has probability 0 under every law)
 TypeOfB(b) == TypeOf(b, Iv)
 
 (* ---- AlternatingCrossover / CambridgeSampler: the split into bloc-first and opposing-first ballots ---- *)
@@ -60,10 +68,9 @@ SplitOf(flat) == <<Cardinality({j \in DOMAIN flat : KindOf(flat[j]) = "bloc"}), 
 SplitOK == \A i \in DOMAIN Law : SplitOf(Law[i].flat) \in Splits
 (* the order in which the code lays out the two kinds does not matter for a bag: bloc-first ballots first *)
 KindAt(flat, j) == IF j <= SplitOf(flat)[1] THEN "bloc" ELSE "cross"
-ACSeqP(s) == IndepP(s, LAMBDA j, b : ACProb(b, KindAt(s, j), Iv, Own, Opp))
+KindSeqP(s, ptB, ptC) == LET nb == SplitOf(s)[1] IN IndepP(s, LAMBDA j, b : IF j <= nb THEN ptB[b] ELSE ptC[b])
 ACShapeOK == \A i \in DOMAIN Law : \A j \in DOMAIN Law[i].flat :
                 LET b == Law[i].flat[j] IN b = ACShape(KindOf(b), RestrictTo(b, DOMAIN Iv[Own]), RestrictTo(b, DOMAIN Iv[Opp]))
-CamSeqP(s) == IndepP(s, LAMBDA j, b : CamProb(b, KindAt(s, j), Iv, Own, Opp, Cown, Hist, Lab, OLab))
 (* slate pattern law of a Cambridge ballot *)
 CamW2 == CamW(Iv, Own, Opp, Cown)
 CamTypeP(kind, t) ==
@@ -72,23 +79,22 @@ CamTypeP(kind, t) ==
       tot == FoldSet(LAMBDA x, acc : Hist[x] + acc, 0, ts)
   IN IF tot = 0 THEN R(0) ELSE RSumSet({x \in ts : FillFrom(x, Lab, Rep(Own, no), Rep(Opp, np)) = t}, LAMBDA x : Norm(Hist[x], tot))
 CamKindOfT(t) == IF t # <<>> /\ t[1] = Own THEN "bloc" ELSE "cross"
-CamTypeSeqP(s) == LET nb == Cardinality({j \in DOMAIN s : CamKindOfT(s[j]) = "bloc"}) IN
-                  IndepP(s, LAMBDA j, t : CamTypeP(IF j <= nb THEN "bloc" ELSE "cross", t))
+CamTypeSeqP(s, ttB, ttC) == LET nb == Cardinality({j \in DOMAIN s : CamKindOfT(s[j]) = "bloc"}) IN
+                            IndepP(s, LAMBDA j, t : IF j <= nb THEN ttB[t] ELSE ttC[t])
 
 (* ---- MCMC: the kernel extracted from the code ---- *)
 KRows == ToSet(T.kernel)
 KStates == {x[1] : x \in KRows}
 Markov == \A x, y \in KRows : x[1] = y[1] => WOf(x[2]) = WOf(y[2])
-KCode == [s \in KStates |-> WOf((CHOOSE x \in KRows : x[1] = s)[2])]
+KCode == TLCEval([s \in KStates |-> WOf((CHOOSE x \in KRows : x[1] = s)[2])])
 CombW == Combined(Iv, Coh)
 Pi == IF T.op = "nameBT_mcmc" THEN NameBTpi(CombW) ELSE SlateBTpi(Own, Cown, SlateCounts(Iv))
-KSpec == Metropolis(Pi)
 Complete == \A s \in DOMAIN Pi : Pi[s][1] > 0 => s \in KStates
-KernelIsMetropolis == \A s \in KStates : s \in DOMAIN KSpec /\ \A t \in DOMAIN KSpec[s] : KAt(KCode, s, t) = KSpec[s][t]
+KernelIsMetropolis == LET K == KCode  pi == TLCEval(Pi) IN
+                      \A s \in KStates : s \in DOMAIN pi /\ (LET row == MetRow(s, pi, DOMAIN pi) IN \A t \in DOMAIN pi : KAt(K, s, t) = row[t])
 Seed == T.seed
-WithinSeqP(s) == IndepP(s, LAMBDA j, b : WithinProb(b, Iv))
 (* slate-BT through the chain: the patterns follow the chain, each pattern is filled independently *)
-ChainFillSeqP(s) == RMul(ChainP([j \in DOMAIN s |-> TypeOfB(s[j])], KCode, Seed), WithinSeqP(s))
+ChainFillSeqP(s, K, wt) == RMul(ChainP([j \in DOMAIN s |-> TypeOfB(s[j])], K, Seed), IndepP(s, LAMBDA j, b : wt[b]))
 
 (* ---- spatial ---- *)
 CPos == PairsFn(T.cpos, LAMBDA x : x)
@@ -104,34 +110,39 @@ Clause ==
   ELSE IF Mcmc /\ ~(\A x \in KRows : RSumF(WOf(x[2])) = R(1)) THEN Pre \o ":RowSum"
   ELSE IF Mcmc /\ ~Markov THEN Pre \o ":NotMarkov"
   ELSE IF Mcmc /\ ~Complete THEN Pre \o ":Incomplete"
-  ELSE IF Mcmc /\ ~Stationary(KCode, Pi) THEN Pre \o ":Stationary"
-  ELSE IF Mcmc /\ ~Irreducible(KCode, Pi) THEN Pre \o ":Reducible"
-  ELSE IF Len(T.law) > 0 /\ LawSum # T.den THEN "LawNotNormalised"
+  ELSE IF Mcmc /\ ~(LET K == KCode  pi == TLCEval(Pi) IN Stationary(K, pi)) THEN Pre \o ":Stationary"
+  ELSE IF Mcmc /\ ~(LET K == KCode  pi == TLCEval(Pi) IN Irreducible(K, pi)) THEN Pre \o ":Reducible"
+  ELSE IF Len(T.law) > 0 /\ ~LawComplete THEN "LawNotNormalised"
   ELSE IF T.op = "cumulative" THEN
-       (IF AgreesIid(LAMBDA b : CumProb(PairsFn(b, LAMBDA n : n), Iv, Coh, T.k)) THEN "" ELSE "Cumulative:Law")
+       (IF AgreesIidT(Tab(LAMBDA b : CumProb(PairsFn(b, LAMBDA n : n), Iv, Coh, T.k))) THEN "" ELSE "Cumulative:Law")
   ELSE IF ~RankingsOK THEN "Malformed"
-  ELSE CASE T.op = "namePL" -> IF AgreesIid(LAMBDA b : NamePLProb(b, Iv, Coh, T.k)) THEN "" ELSE "PL:Law"
-         [] T.op = "nameBT" -> IF AgreesIid(LAMBDA b : NameBTProb(b, Iv, Coh)) THEN "" ELSE "NameBT:Law"
-         [] T.op = "IC"     -> IF AgreesIid(LAMBDA b : ICProb(b, Cands)) THEN "" ELSE "IC:Uniform"
+  ELSE CASE T.op = "namePL" -> IF AgreesIidT(Tab(LAMBDA b : NamePLProb(b, Iv, Coh, T.k))) THEN "" ELSE "PL:Law"
+         [] T.op = "nameBT" -> IF AgreesIidT(Tab(LAMBDA b : NameBTProb(b, Iv, Coh))) THEN "" ELSE "NameBT:Law"
+         [] T.op = "IC"     -> IF AgreesIidT(Tab(LAMBDA b : ICProb(b, Cands))) THEN "" ELSE "IC:Uniform"
          [] T.op = "slatePL" ->
-              IF ~MarginalAgreesIid(TypeOfB, LAMBDA t : SPLTypeProb(t, Coh, SlateCounts(Iv))) THEN "SlatePL:TypeLaw"
-              ELSE IF ~AgreesIid(LAMBDA b : SlatePLProb(b, Iv, Coh)) THEN "SlatePL:WithinSlateOrder" ELSE ""
+              IF ~MarginalAgreesIidT(TypeOfB, TTab(LAMBDA t : SPLTypeProb(t, Coh, SlateCounts(Iv)))) THEN "SlatePL:TypeLaw"
+              ELSE IF ~AgreesIidT(Tab(LAMBDA b : SlatePLProb(b, Iv, Coh))) THEN "SlatePL:WithinSlateOrder" ELSE ""
          [] T.op = "slateBT" ->
-              IF ~MarginalAgreesIid(TypeOfB, LAMBDA t : SBTTypeProb(t, Own, Cown, SlateCounts(Iv))) THEN "SlateBT:TypeLaw"
-              ELSE IF ~AgreesIid(LAMBDA b : SlateBTProb(b, Iv, Own, Cown)) THEN "SlateBT:WithinSlateOrder" ELSE ""
+              IF ~MarginalAgreesIidT(TypeOfB, TTab(LAMBDA t : SBTTypeProb(t, Own, Cown, SlateCounts(Iv)))) THEN "SlateBT:TypeLaw"
+              ELSE IF ~AgreesIidT(Tab(LAMBDA b : SlateBTProb(b, Iv, Own, Cown))) THEN "SlateBT:WithinSlateOrder" ELSE ""
          [] T.op = "AC" ->
               IF ~SplitOK THEN "AC:Split"
               ELSE IF ~ACShapeOK THEN "AC:Shape"
-              ELSE IF ~Agrees(ACSeqP) THEN "AC:WithinSlateOrder" ELSE ""
+              ELSE LET ptB == Tab(LAMBDA b : ACProb(b, "bloc", Iv, Own, Opp))  ptC == Tab(LAMBDA b : ACProb(b, "cross", Iv, Own, Opp))
+                   IN IF ~Agrees(LAMBDA s : KindSeqP(s, ptB, ptC)) THEN "AC:WithinSlateOrder" ELSE ""
          [] T.op = "Cambridge" ->
               IF ~SplitOK THEN "Cambridge:Split"
-              ELSE IF ~MarginalAgrees(TypeOfB, CamTypeSeqP) THEN "Cambridge:TypeLaw"
-              ELSE IF ~Agrees(CamSeqP) THEN "Cambridge:WithinSlateOrder" ELSE ""
+              ELSE LET ttB == TTab(LAMBDA t : CamTypeP("bloc", t))  ttC == TTab(LAMBDA t : CamTypeP("cross", t))
+                       ptB == Tab(LAMBDA b : CamProb(b, "bloc", Iv, Own, Opp, Cown, Hist, Lab, OLab))
+                       ptC == Tab(LAMBDA b : CamProb(b, "cross", Iv, Own, Opp, Cown, Hist, Lab, OLab))
+                   IN IF ~MarginalAgrees(TypeOfB, LAMBDA s : CamTypeSeqP(s, ttB, ttC)) THEN "Cambridge:TypeLaw"
+                      ELSE IF ~Agrees(LAMBDA s : KindSeqP(s, ptB, ptC)) THEN "Cambridge:WithinSlateOrder" ELSE ""
          [] T.op = "nameBT_mcmc" ->       \* the profile is the bag of the states the chain visits
-              IF ~Agrees(LAMBDA s : ChainP(s, KCode, Seed)) THEN "NameBT-MCMC:PathLaw" ELSE ""
+              LET K == KCode IN IF ~Agrees(LAMBDA s : ChainP(s, K, Seed)) THEN "NameBT-MCMC:PathLaw" ELSE ""
          [] T.op = "slateBT_mcmc" ->
-              IF ~MarginalAgrees(TypeOfB, LAMBDA s : ChainP(s, KCode, Seed)) THEN "SlateBT-MCMC:PathLaw"
-              ELSE IF ~Agrees(ChainFillSeqP) THEN "SlateBT-MCMC:WithinSlateOrder" ELSE ""
+              LET K == KCode  wt == Tab(LAMBDA b : WithinProb(b, Iv)) IN
+              IF ~MarginalAgrees(TypeOfB, LAMBDA s : ChainP(s, K, Seed)) THEN "SlateBT-MCMC:PathLaw"
+              ELSE IF ~Agrees(LAMBDA s : ChainFillSeqP(s, K, wt)) THEN "SlateBT-MCMC:WithinSlateOrder" ELSE ""
          [] OTHER -> "UnknownOp"
 (* not part of the property (which fixes only the stationary law), reported as information: the kernel is the *)
 (* adjacent-swap Metropolis kernel of the documentation                                                       *)
